@@ -19,7 +19,9 @@ from pbt import registry as reg
 
 
 def _f(lo, hi):
-    return st.floats(lo, hi, allow_nan=False).map(lambda x: float("%.5g" % x))
+    """float in [lo, hi]; if the range contains 0, magnitudes below 1e-3 of the range are flushed to exactly 0"""
+    tiny = 1e-3 * max(abs(lo), abs(hi)) if lo < 0 < hi else 0.0
+    return st.floats(lo, hi, allow_nan=False).map(lambda x: float("%.5g" % x) if abs(x) >= tiny else 0.0)
 
 
 def _pm(lo, hi):
